@@ -117,8 +117,10 @@ Definition negotiate (discovery : bool) (outs : list outcome) : option choice :=
    nothing is shared between concurrent calls except the cell self._api_versions.
      Call id           a get_api_version call begins (a Producer batch, a Consumer's first fetch, ...)
      Reply id outcome  the ApiVersions request of call [id] completes
-   client.py:825 stores an answer without looking at the cell; client.py:822 re-tests `_api_versions is None` after
-   a KafkaUnavailableError; client.py:831-835 stores 0 whenever the loop ended without an answer of ITS OWN. *)
+   The FIRST lookup to finish decides (fixes 276cfa2, 8e462bd): client.py:824-828 stores an answer (table, or 0 for
+   an answer carrying an error code) only while the cell is still None; client.py:822 re-tests `_api_versions is None`
+   after a KafkaUnavailableError; client.py:834-842: when the loop ended without an answer of ITS OWN, 0 is stored
+   only if the cell is still None. *)
 Inductive event := Call (id : nat) | Reply (id : nat) (o : outcome).
 
 Record cstate := mkC { cell : vstate; waiting : list (nat * nat) }.     (* (call id, api_version_failures) *)
@@ -148,12 +150,15 @@ Definition step (s : cstate) (e : event) : cstate :=
       | None => s                                              (* not enabled *)
       | Some f =>
           match o with
-          | Answer code t => mkC (handle_api_version_update code t) (remove_call id (waiting s))
+          | Answer code t =>                                     (* fix 8e462bd: client.py:824-828 *)
+              mkC (if is_unknown (cell s) then handle_api_version_update code t else cell s)
+                  (remove_call id (waiting s))
           | OtherFailure => mkC (cell s) (remove_call id (waiting s))
           | Unavailable =>
               if is_unknown (cell s) && Nat.ltb (S f) 3
               then mkC (cell s) (map (fun x => if Nat.eqb (fst x) id then (id, S f) else x) (waiting s))
-              else mkC (handle_api_version_update (-1) []) (remove_call id (waiting s))
+              else mkC (if is_unknown (cell s) then handle_api_version_update (-1) [] else cell s)
+                       (remove_call id (waiting s))          (* fix 276cfa2: client.py:833-837 *)
           end
       end
   end.
